@@ -53,6 +53,7 @@ def gen(rng, tier):
         spec["model"]["share_id_objects"] = True  # main_workplace_id is the workplace's own ID object, as in `main_workplace_id=wp.ID`
     if rng.random() < 0.1:
         spec["cfg"]["unit_time"] = rng.choice([2, 3])  # the clock advances by 2 or 3 per step: a pause point is a time
+    spec["absence_alias"] = rng.random() < 0.3
     spec["all_k"] = (tier == "thorough")
     spec["ks"] = [rng.randint(0, 30) for _ in range(3)]
     spec["chain"] = sorted(rng.randint(0, 20) for _ in range(rng.randint(2, 3)))
@@ -108,6 +109,8 @@ def paused_run(spec, pauses, via):
         if not first:
             c["init_state"] = False
             c["init_log"] = False
+            if spec.get("absence_alias"):
+                c["_absence_obj"] = p.absence_time_list
         rec, out = scen.simulate(p, c, want_snap=False)
         first = False
         if not out.ok:
@@ -128,6 +131,8 @@ def paused_run(spec, pauses, via):
     if not first:
         c["init_state"] = False
         c["init_log"] = False
+        if spec.get("absence_alias"):
+            c["_absence_obj"] = p.absence_time_list  # simulate(absence_time_list=project.absence_time_list, ...)
     rec, out = scen.simulate(p, c, want_snap=False)
     return p, out, info
 
